@@ -426,9 +426,9 @@ func runCheck(cfg checkCfg) int {
 			"rocksdb_skeleton_dropped": len(prog.Dropped),
 		},
 	}
-	os.MkdirAll(filepath.Join(cfg.VerifDir, "evidence"), 0o755)
+	os.MkdirAll(evidenceDir(cfg), 0o755)
 	b, _ := json.MarshalIndent(ev, "", " ")
-	os.WriteFile(filepath.Join(cfg.VerifDir, "evidence", cfg.Prop+".json"), b, 0o644)
+	os.WriteFile(filepath.Join(evidenceDir(cfg), cfg.Prop+".json"), b, 0o644)
 	fmt.Printf("property %s tier %s: %d functions, %d obligations (%d path VCs), %d discharged, %d known findings, %d violations, %d undecided functions, %.1fs\n",
 		cfg.Prop, cfg.Tier, len(results), len(order), len(allVCs), discharged, out.Known, out.Violations, len(undecidedFuncs), wall)
 	if cfg.Verbose {
@@ -491,9 +491,18 @@ func writeEvidenceError(cfg checkCfg, msg string, wall float64) {
 		"property_id": cfg.Prop, "tier": cfg.Tier, "seed": cfg.Seed, "level": "other", "wall_s": wall,
 		"coverage": map[string]interface{}{"explanation": "the tree could not be loaded/type-checked; nothing was verified: " + msg},
 	}
-	os.MkdirAll(filepath.Join(cfg.VerifDir, "evidence"), 0o755)
+	os.MkdirAll(evidenceDir(cfg), 0o755)
 	b, _ := json.MarshalIndent(ev, "", " ")
-	os.WriteFile(filepath.Join(cfg.VerifDir, "evidence", cfg.Prop+".json"), b, 0o644)
+	os.WriteFile(filepath.Join(evidenceDir(cfg), cfg.Prop+".json"), b, 0o644)
+}
+
+// evidenceDir: /verif/evidence, unless QEDVC_EVIDENCE_DIR redirects it (runs against a
+// deliberately broken tree - the must-fail corpus - must not overwrite the evidence of the real one).
+func evidenceDir(cfg checkCfg) string {
+	if d := os.Getenv("QEDVC_EVIDENCE_DIR"); d != "" {
+		return d
+	}
+	return filepath.Join(cfg.VerifDir, "evidence")
 }
 
 func writeReplayFile(dir, prop, ob string, vc *VC, rr *ReplayResult, reason string) string {
